@@ -136,6 +136,40 @@ def run(ctx):
                     viol.append(dict(why='xz %s on three files, write #%d fails with %s: %s ends with source %s and target %s' % (' '.join(margs), k, act, os.path.basename(sp), 'intact' if src_ok else 'GONE/CHANGED', 'complete' if tgt_ok else ('present but WRONG' if os.path.exists(tp) else 'absent')), stderr=r.stderr.decode(errors='replace')[:300])); break
                 if anyfail and r.returncode == 0: viol.append(dict(why='xz %s on three files, write #%d %s: a file was not processed but the exit status is 0' % (' '.join(margs), k, act), stderr=''))
                 distinct.add(('multi', tuple(margs), act, r.returncode))
+    # ---- a termination signal while a later file is being written, after an earlier file of the same run failed (or was
+    # fine): xz must stop by the signal, the file in progress keeps its source and loses its partial target - whatever
+    # happened before (verbose or not, earlier file rejected at its very start, in its middle, or accepted)
+    sig_dir = os.path.join(td, 'sig')
+    big_pl = random_bytes(rng, 1500000) + xzgen.gen_data(rng, 200000)
+    big_xz = lzma.compress(big_pl, preset=0)
+    okx = lzma.compress(xzgen.gen_data(rng, 5000), preset=0)
+    firsts = {'accepted': okx, 'cut-after-block-header': okx[:12 + (okx[12] + 1) * 4], 'cut-in-stream-header': okx[:7], 'not-xz': b'this is not an xz file\n' * 3,
+              'cut-in-data': okx[:len(okx) // 2], 'bitflip': okx[:40] + bytes([okx[40] ^ 0x20]) + okx[41:]}
+    for fname, fbytes in firsts.items():
+        for sargs in (['-d', '-v'], ['-d'], ['-d', '-vv', '-T2'], ['-d', '-q']):
+            if ctx.quick() and rng.random() < 0.4 and fname not in ('cut-after-block-header',): continue
+            def sfresh():
+                shutil.rmtree(sig_dir, ignore_errors=True); os.mkdir(sig_dir)
+                open(os.path.join(sig_dir, 'a.xz'), 'wb').write(fbytes); open(os.path.join(sig_dir, 'b.xz'), 'wb').write(big_xz)
+            sfresh(); slog = os.path.join(td, 'slog')
+            if os.path.exists(slog): os.remove(slog)
+            cmdl = [xz] + sargs + [os.path.join(sig_dir, 'a.xz'), os.path.join(sig_dir, 'b.xz')]
+            r = subprocess.run(cmdl, env=dict(os.environ, LD_PRELOAD=so, VERIF_FAULT_LOG=slog), capture_output=True, stdin=subprocess.DEVNULL, timeout=60)
+            W = dict((l.split()[0], int(l.split()[1])) for l in open(slog).read().split('\n') if l).get('write', 0)
+            if not os.path.exists(os.path.join(sig_dir, 'b')) or open(os.path.join(sig_dir, 'b'), 'rb').read() != big_pl or W < 150:
+                viol.append(dict(why='clean two-file run (%s first) did not decompress the second file (exit %d, %d writes)' % (fname, r.returncode, W), stderr=r.stderr.decode(errors='replace')[:300])); continue
+            for sg in ([signal.SIGTERM, signal.SIGINT] if ctx.quick() else [signal.SIGTERM, signal.SIGINT, signal.SIGHUP, signal.SIGPIPE]):
+                k = W - rng.randrange(40, 140)      # in the middle of the second file's data writes
+                sfresh()
+                r = subprocess.run(cmdl, env=dict(os.environ, LD_PRELOAD=so, VERIF_FAULT='write:%d:S%d' % (k, sg)), capture_output=True, stdin=subprocess.DEVNULL, timeout=60)
+                n_eval += 1; distinct.add(('signal-later-file', fname, tuple(sargs), r.returncode))
+                src_ok = os.path.exists(os.path.join(sig_dir, 'b.xz')) and open(os.path.join(sig_dir, 'b.xz'), 'rb').read() == big_xz
+                tgt = os.path.exists(os.path.join(sig_dir, 'b'))
+                why = None
+                if not src_ok: why = 'the source of the file in progress is gone'
+                elif tgt: why = 'a (partial) target was left behind'
+                elif r.returncode != -sg and r.returncode not in (1, 128 + sg): why = 'exit status %d' % r.returncode
+                if why: viol.append(dict(why='xz %s a.xz(%s) b.xz, signal %d delivered at write #%d of %d (inside b): %s; exit status %d' % (' '.join(sargs), fname, sg, k, W, why, r.returncode), stderr=r.stderr.decode(errors='replace')[-300:]))
     # ---- invalid input (no fault injected): the invalid source stays, no target appears for it, exit status non-zero;
     # valid files named in the same run are still replaced.  Every order and format mix: nothing may leak between files.
     from props.c16 import lz_member
